@@ -141,6 +141,9 @@ def shapes(tier):
     out.append(["Struct", [["f0", BYTE], ["f1", ["FixedSized", ["this", "f0"], ["GreedyBytes"]]], ["f2", BYTE]]])
     out.append(["Struct", [["f0", BYTE], ["f1", ["PaddedString", ["this", "f0"], "ascii"]], ["f2", BYTE]]])
     out.append(["Struct", [["f0", BYTE], ["f1", ["Pointer", ["this", "f0"], BYTE]], ["f2", BYTE]]])
+    # constant targets: from the start, and (negative) from the end of the stream
+    for off, sub in ((0, BYTE), (2, BYTE), (-1, BYTE), (-2, G.I(2, False, "b")), (-3, ["Bytes", 2])):
+        out.append(["Struct", [["f0", BYTE], ["f1", ["Pointer", off, sub]], ["f2", G.I(2, False, "l")]]])
     out.append(["Struct", [[None, ["ConstB", b"MZ"]], ["f0", BYTE], [None, ["Padding", 2]], ["f1", G.I(2, False, "l")]]])
     # constants over every sub-construct that can encode them (the schema's contents are the ENCODING, not the value)
     from .c04 import const_over
